@@ -34,6 +34,31 @@ class Harness:
         return "k_" + self.name
 
 
+def expand_templates(text):
+    """`//@ expand VAR in A B C` in front of a harness replicates that harness once per value, substituting
+    {VAR} (whole value) and {VAR0}, {VAR1}, ... (its characters).  Keeps every instance loop-free and concrete."""
+    out = []
+    pos = 0
+    for m in re.finditer(r"^//@ expand (\w+) in ([^\n]+)\n", text, flags=re.M):
+        if m.start() < pos:
+            continue
+        end = text.find("\n}\n", m.end())
+        if end < 0:
+            raise ValueError("expand: no function end after %r" % m.group(0))
+        end += 3
+        block = text[m.end():end]
+        out.append(text[pos:m.start()])
+        var = m.group(1)
+        for val in m.group(2).split():
+            inst = block.replace("{%s}" % var, val)
+            for k, ch in enumerate(val):
+                inst = inst.replace("{%s%d}" % (var, k), ch)
+            out.append(inst)
+        pos = end
+    out.append(text[pos:])
+    return "".join(out)
+
+
 def parse_harness_file(unit, text):
     """Return list[Harness] in file order."""
     out = []
@@ -131,7 +156,7 @@ def build_module(unit, harness_text, harnesses, modname="verif_harness"):
 def inject_unit(snapshot, unit):
     """unit: dict(name, file, harness) -> list[Harness]; edits snapshot/<file> in place."""
     hpath = os.path.join(CONTRACTS, unit["harness"])
-    text = open(hpath).read()
+    text = expand_templates(open(hpath).read())
     harnesses = parse_harness_file(unit["name"], text)
     target = os.path.join(snapshot, unit["file"])
     if not os.path.exists(target):
